@@ -1,4 +1,5 @@
 import QcoVerif.Lemmas.Export
+import QcoVerif.Generated.GateTables
 /-
   C08 — Stim export is the in-order image of the circuit.
 
@@ -101,6 +102,22 @@ example : translate { cls := .rx90, qs := [3] } = some { name := "SQRT_X", targe
   decide
 
 theorem table_has_15_entries : (Cls.all.filter (fun c => c.stimName.isSome)).length = 15 := by decide
+
+/-- the entry of a class in the model's factory table, in the vocabulary of the generated table: the gate name of a
+    name-based factory, `*<factory class>` for the four annotation/tick factories, `""` for an unsupported class. -/
+def stimEntry (c : Cls) : String :=
+  match c with
+  | .barrier => "*TickOperationsFactory"
+  | .cshift => "*CoordinateShiftOperationsFactory"
+  | .detector => "*DetectorOperationsFactory"
+  | .observable => "*LogicalObservableOperationsFactory"
+  | c => c.stimName.getD ""
+
+/-- **the model's gate table is the live `StimFactoryManager` table** (`Gen.stimTable` is regenerated from the code on
+    every run; re-checked by `lake build`): same supported classes, same gate names, nothing else. -/
+theorem stim_table_matches_source :
+    Gen.stimTable = Cls.all.map (fun c => (c.name, stimEntry c)) ∧ Gen.unknownExportClasses = [] := by
+  constructor <;> decide +kernel
 
 /-! ### detector / observable / coordinate shift -/
 
